@@ -4,8 +4,8 @@
    A history is a list of events: start of a store / commit / abort / success return / error return / crash / reopen /
    lookup with its result; [run_evs cinit h = Some _] says that h is a history of the model; [starts h] lists the VAAs
    whose store was started, transaction n storing the n-th.
-   The engine contract (acknowledge only after durable; a kill loses only unacknowledged transactions, whole; reopening
-   succeeds) is the definition of [exec] and, for a concrete engine, the Section hypothesis [engine_contract] of
+   The engine contract (acknowledge only after durable; a kill loses only unacknowledged transactions, whole; every
+   zero-length log file a kill leaves fails exactly one badger.Open attempt and is repaired by it) is the definition of [exec] and, for a concrete engine, the Section hypothesis [engine_contract] of
    proofs/CrashKVProofs.v: TRUSTED for badger, attacked by the SIGKILL harness, not proved. *)
 From Coq Require Import List ZArith Lia Bool Arith.
 From Coq Require Import Strings.Byte.
@@ -46,12 +46,16 @@ Theorem C16_lookup_is_last_committed : forall h i res st, run_evs cinit (h ++ [E
   res = match last_committed h i with Some v => Found (marshal v) | None => NotFound end.
 Proof. exact lookup_is_last_committed. Qed.
 
-(* a kill can come at any moment, and the store always reopens afterwards with exactly its durable contents *)
-Theorem C16_kill_any_time : forall st, up st = true -> exists st', exec st ECrash = Some st'.
+(* a kill can come at any moment and may leave ANY number of zero-length log files (each makes one badger.Open attempt
+   fail); the store always reopens afterwards — db.Open never returns an error — with exactly its durable contents.
+   [db_open_attempts] is db.go's loop bound, generated from the source. *)
+Theorem C16_kill_any_time : forall st k, up st = true -> exists st', exec st (ECrash k) = Some st'.
 Proof. exact crash_always_possible. Qed.
-Theorem C16_reopens_after_kill : forall st st', exec st ECrash = Some st' ->
-  exists st'', exec st' EReopen = Some st'' /\ dur st'' = dur st /\ up st'' = true /\ infl st'' = [].
+Theorem C16_reopens_after_kill : forall st k st', exec st (ECrash k) = Some st' ->
+  exists st'', exec st' EReopen = Some st'' /\ dur st'' = dur st /\ up st'' = true /\ infl st'' = [] /\ damaged st'' = 0%nat.
 Proof. exact reopens_after_crash. Qed.
+Theorem C16_reopen_never_fails : forall st k st', exec st (ECrash k) = Some st' -> exec st' EReopenFail = None.
+Proof. exact reopen_never_fails. Qed.
 
 (* error return = the transaction was given up; an unsigned VAA never reaches the store *)
 Theorem C16_error_means_aborted : forall st n st', exec st (EErr n) = Some st' -> In n (aborted st).
@@ -78,12 +82,12 @@ Definition ex_v (sq : Z) (p : byte) : vaa :=
   {| version := vaa_version; gsidx := 0; sigs := [ex_sig]; ts := 1; tns := 0; nonce := 0; echain := 2; tchain := 255;
      eaddr := repeat x00 32; seq := sq; cl := 1; payload := [p] |}.
 Definition ex_h : list ev :=
-  [EStart (ex_v 1 x01); ECommit 0; EAck 0; EStart (ex_v 2 x02); EStart (ex_v 1 x03); ECommit 2; ECrash; EReopen;
-   EGet (id_of (ex_v 1 x01)) (Found (marshal (ex_v 1 x03))); EGet (id_of (ex_v 2 x02)) NotFound; ECrash; EReopen;
+  [EStart (ex_v 1 x01); ECommit 0; EAck 0; EStart (ex_v 2 x02); EStart (ex_v 1 x03); ECommit 2; ECrash 2; EReopen;
+   EGet (id_of (ex_v 1 x01)) (Found (marshal (ex_v 1 x03))); EGet (id_of (ex_v 2 x02)) NotFound; ECrash 0; EReopen;
    EGet (id_of (ex_v 1 x01)) (Found (marshal (ex_v 1 x03)))].
 
 Example C16_example_history : (exists st, run_evs cinit ex_h = Some st) /\ Forall wf (starts ex_h) /\
-  run_evs cinit [EStart (ex_v 1 x01); ECrash; EReopen; EGet (id_of (ex_v 1 x01)) (Found (marshal (ex_v 1 x01)))] = None /\
+  run_evs cinit [EStart (ex_v 1 x01); ECrash 1; EReopen; EGet (id_of (ex_v 1 x01)) (Found (marshal (ex_v 1 x01)))] = None /\
   run_evs cinit [EStart (ex_v 1 x01); EAck 0] = None.
 Proof.
   split; [eexists; vm_compute; reflexivity|]. split; [|split; vm_compute; reflexivity].
@@ -97,6 +101,7 @@ Print Assumptions C16_lookup_never_foreign.
 Print Assumptions C16_lookup_is_last_committed.
 Print Assumptions C16_kill_any_time.
 Print Assumptions C16_reopens_after_kill.
+Print Assumptions C16_reopen_never_fails.
 Print Assumptions C16_error_means_aborted.
 Print Assumptions C16_unsigned_changes_nothing.
 Print Assumptions C16_plain_history_is_C12_store.
